@@ -19,6 +19,10 @@ HEADER = "# NETQASM 1.0\n# APPID 0\n"
 BANKS = "RCQM"
 
 
+class Unsupported(Exception):
+    pass
+
+
 # ------------------------------------------------------------------ preparation
 class Impl:
     def __init__(self, repo):
@@ -86,6 +90,51 @@ class Impl:
             ops.append(ct.mk_operand(self.operand, self.encoding, k, leaves[i:i + n]))
             i += n
         return row["cls"].from_operands(ops)
+
+    # ---- real proto-commands -> IR
+    def view_val(self, v):
+        op = self.operand
+        if isinstance(v, bool):
+            raise Unsupported("bool")
+        if isinstance(v, int):
+            return ["lit", v]
+        if isinstance(v, op.Register):
+            return ["reg", v.name.value, v.index]
+        raise Unsupported(type(v).__name__)
+
+    def view_opnd(self, o):
+        op = self.operand
+        if isinstance(o, op.Label):
+            return ["label", o.name]
+        if isinstance(o, op.Address):
+            return ["addr", o.address]
+        if isinstance(o, op.ArrayEntry):
+            return ["entry", o.address.address, self.view_val(o.index)]
+        if isinstance(o, op.ArraySlice):
+            return ["slice", o.address.address, self.view_val(o.start), self.view_val(o.stop)]
+        return self.view_val(o)
+
+    def view_proto(self, proto):
+        out = []
+        for c in proto.commands:
+            if isinstance(c, self.ir.BranchLabel):
+                out.append(["lab", c.name])
+            else:
+                out.append(["ins", self.ir.instruction_to_string(c.instruction), list(c.args),
+                            [self.view_opnd(o) for o in c.operands]])
+        return out
+
+    def parse_front(self, lines):
+        """the real text front end on a text -> proto-commands as IR, None if it raises,
+        'unsupported' if the result has operands outside the model (templates)"""
+        try:
+            proto = self.text.parse_text_protosubroutine("\n".join(lines) + "\n")
+        except Exception:  # any refusal
+            return None
+        try:
+            return self.view_proto(proto)
+        except Unsupported:
+            return "unsupported"
 
     # ---- the implementation under test
     def classify(self, exc):
@@ -207,6 +256,18 @@ def opnd_str(o):
     if k == "entry":
         return f"@{o[1]}[{val_str(o[2])}]"
     return f"@{o[1]}[{val_str(o[2])}:{val_str(o[3])}]"
+
+
+def canonical_lines(prog):
+    """the canonical text of a proto-program (what TextFront.print_proto prints)"""
+    lines = ["# NETQASM 1.0", "# APPID 0"]
+    for c in prog:
+        if c[0] == "lab":
+            lines.append(c[1] + ":")
+        else:
+            head = c[1] + ("(" + ",".join(str(a) for a in c[2]) + ")" if c[2] else "")
+            lines.append("".join([head] + [" " + opnd_str(o) for o in c[3]]))
+    return lines
 
 
 def render_text(rng, prog, macros=True, noise=True):
@@ -363,6 +424,35 @@ def coq_acase(c):
     return f"mkAC {lines} {prog} {coq_outcome(c['out'])} {c['fuel']}%nat {coq_obs(c['obs'])}"
 
 
+def coq_oprog(p):
+    return "None" if p is None else f"(Some {lst(coq_cmd(x) for x in p)})"
+
+
+def write_fcase_file(path, fname, cases):
+    with open(path, "w") as f:
+        f.write(FRONT_HEADER)
+        f.write("Definition cases : list fcase :=\n [" + ";\n  ".join(
+            f"mkFC {lst(cstr(l) for l in c['lines'])} {coq_oprog(c['proto'])}" for c in cases) + "].\n")
+        f.write("Eval vm_compute in (codes (check_fcase gen_banks gen_ginstrs) cases).\n")
+
+
+def write_kcase_file(path, fname, cases):
+    with open(path, "w") as f:
+        f.write(FRONT_HEADER)
+        f.write("Definition cases : list kcase :=\n [" + ";\n  ".join(
+            f"mkKC {lst(coq_cmd(x) for x in c['prog'])} {lst(cstr(l) for l in c['lines'])} {coq_oprog(c['back'])}"
+            for c in cases) + "].\n")
+        f.write("Eval vm_compute in (codes (check_kcase gen_banks gen_ginstrs) cases).\n")
+
+
+FRONT_HEADER = """From Coq Require Import ZArith List String Ascii.
+From NQ Require Import Base.Bits Lang.Codec Lang.CodecCheck Lang.Asm Lang.Text Lang.TextFront Lang.AsmCheck Lang.TextFrontCheck.
+From Gen Require Import Gen_Codec Gen_Asm.
+Import ListNotations.
+Open Scope Z_scope.
+Open Scope string_scope.
+"""
+
 CASE_HEADER = """From Coq Require Import ZArith List String Ascii.
 From NQ Require Import Base.Bits Lang.Codec Lang.CodecCheck Lang.Asm Lang.AsmSem Lang.Text Lang.AsmCheck.
 From Gen Require Import Gen_Codec Gen_Asm.
@@ -397,7 +487,7 @@ def parse_codes(out):
     if len(m) != 1:
         return None
     vals = [int(x) for x in re.findall(r"-?\d+", m[0])]
-    return [(v // 8, v % 8) for v in vals]
+    return [(v // 16, v % 16) for v in vals]
 
 
 def run_sharded(ctx, writer, per_flav, shard, prefix):
